@@ -69,7 +69,7 @@ def extract(repo):
     os.makedirs(CACHE, exist_ok=True)
     key, nfiles = repo_hash(repo)
     d = os.path.join(CACHE, key)
-    lock = open(os.path.join(CACHE, "lock"), "w")
+    lock = open(os.path.join(CACHE, key + ".lock"), "w")
     fcntl.flock(lock, fcntl.LOCK_EX)
     try:
         meta_p = os.path.join(d, "meta.json")
@@ -104,8 +104,12 @@ def extract(repo):
         # keep the 4 most recently used trees
         ents = sorted((e for e in os.listdir(CACHE) if os.path.isdir(os.path.join(CACHE, e)) and not e.endswith(".partial")),
                       key=lambda e: os.path.getmtime(os.path.join(CACHE, e)), reverse=True)
-        for e in ents[6:]:
+        for e in ents[12:]:
             shutil.rmtree(os.path.join(CACHE, e), ignore_errors=True)
+            try:
+                os.unlink(os.path.join(CACHE, e + ".lock"))
+            except OSError:
+                pass
         return d, meta
     finally:
         fcntl.flock(lock, fcntl.LOCK_UN)
